@@ -33,14 +33,14 @@ LEVEL_NOTE = "Trusted: Lean kernel; standard axioms; Python mirror; harness."
 TECHNIQUE = "Lean 4 refinement proof (model -> simple containers) + three-way differential correspondence on op sequences"
 
 
-def generate(rng, tier, allocs=ALLOCS, nonfinite=False, nops=None):
+def generate(rng, tier, allocs=ALLOCS, nonfinite=False, nops=None, parses=False):
     quick = tier == "quick"
     cases = []
     for k in range(450 if quick else 40000):
         alloc = allocs[k % len(allocs)]
         dups = (k % 7 == 3)
         n = nops or rng.choice([10, 20, 40, 60, 120])
-        M, lines, exp = D.gen_case(rng, alloc, n, dups=dups, allow_nonfinite=nonfinite, maps=not dups, focus=rng.choice([0.0, 0.0, 0.6, 0.9]))
+        M, lines, exp = D.gen_case(rng, alloc, n, dups=dups, allow_nonfinite=nonfinite, maps=not dups, focus=rng.choice([0.0, 0.0, 0.6, 0.9]), parses=parses and (k % 2 == 0))
         lines, exp = D.finish(M, lines, exp, rng)
         cases.append({"lines": lines, "exp": exp, "cls": f"{alloc}/{'dups' if dups else 'distinct'}/{n}", "nontrivial": len(lines) >= 10})
     return cases
@@ -81,6 +81,8 @@ def judge_lines(case, mo, io, cfg, want_dump=True):
                 if iv.get(k) != mv.get(k):
                     return ("drift", f"model and implementation differ in {k} at {where}: model={mv.get(k, '')[:60]} impl={iv.get(k, '')[:60]}")
             continue
+        if e.get("_err") and not i.startswith("err="):
+            return ("violation", f"invalid text accepted by Parse at {where}: {i[:100]}")
         if not e.get("_skip"):
             for k, want in e.items():
                 if k.startswith("_") or want is True:
@@ -91,6 +93,9 @@ def judge_lines(case, mo, io, cfg, want_dump=True):
                     continue
                 if iv.get(k) != want:
                     return ("violation", f"{k} differs from the simple container model at {where}: impl={str(iv.get(k))[:120]} expected={want[:120]}")
+        if ln.startswith("dom-parse") and m.startswith("err=") and i.startswith("err="):
+            # the DOM model does not predict the parse error code (the parser model of C01 does): compare the document only
+            m, i = m.split(" ", 1)[-1], i.split(" ", 1)[-1]
         if m != i:
             return ("drift", f"model and implementation differ at {where}: model={m[:140]} impl={i[:140]}")
     return None
